@@ -80,6 +80,28 @@ macro_rules! with_d {
     };
 }
 
+/// Vector operations: the usual dimensions and a few beyond them (multiples of 16 and their neighbours)
+macro_rules! with_d_vec {
+    ($d:expr, $D:ident, $body:block) => {
+        match $d {
+            1 => { const $D: usize = 1; $body }
+            2 => { const $D: usize = 2; $body }
+            3 => { const $D: usize = 3; $body }
+            4 => { const $D: usize = 4; $body }
+            5 => { const $D: usize = 5; $body }
+            6 => { const $D: usize = 6; $body }
+            7 => { const $D: usize = 7; $body }
+            8 => { const $D: usize = 8; $body }
+            13 => { const $D: usize = 13; $body }
+            16 => { const $D: usize = 16; $body }
+            17 => { const $D: usize = 17; $body }
+            32 => { const $D: usize = 32; $body }
+            48 => { const $D: usize = 48; $body }
+            _ => panic!("harness: unsupported dimension"),
+        }
+    };
+}
+
 /// `sample` only: additionally a dimension beyond one byte (D is an unbounded const generic) and an odd one beyond the usual range
 macro_rules! with_d_sample {
     ($d:expr, $D:ident, $body:block) => {
@@ -547,7 +569,7 @@ fn op_vec(j: &Value) -> Value {
     let a = j.get("a").map(|_| get_fs(j, "a")).unwrap_or_default();
     let b = j.get("b").map(|_| get_fs(j, "b")).unwrap_or_default();
     let s = get_opt_f(j, "s").unwrap_or(0.0);
-    with_d!(d, D, {
+    with_d_vec!(d, D, {
         let va = || Vector::<f64, D>::from_vec(a.clone());
         let vb = || Vector::<f64, D>::from_vec(b.clone());
         let r: Vec<f64> = match f {
